@@ -10,6 +10,7 @@ import (
 	"fmt"
 	"hash/fnv"
 	"os"
+	"os/exec"
 	"path/filepath"
 	"runtime"
 	"sort"
@@ -313,6 +314,142 @@ func loadFindings(root string) ([]Finding, error) {
 	return all, nil
 }
 
+// shard is what a worker subprocess hands back to its parent.
+type shard struct {
+	Obls     []*Obl
+	Evals    int64
+	Distinct []uint64
+	Samples  []any
+	Extra    map[string]any
+	Caps     []string
+}
+
+func (c *Ctx) writeShard(path string) {
+	sh := shard{Evals: c.evals, Samples: c.samples, Extra: c.extra, Caps: c.caps}
+	for _, o := range c.obls {
+		sh.Obls = append(sh.Obls, o)
+	}
+	for h := range c.distinct {
+		sh.Distinct = append(sh.Distinct, h)
+	}
+	b, err := json.Marshal(sh)
+	if err != nil {
+		c.Fatalf("shard: %v", err)
+	}
+	if err := os.WriteFile(path, b, 0o644); err != nil {
+		c.Fatalf("shard: %v", err)
+	}
+}
+
+// MergeShard folds a worker's result file into this context. Numeric extras are summed,
+// other extras are kept under their key.
+func (c *Ctx) MergeShard(path string) error {
+	b, err := os.ReadFile(path)
+	if err != nil {
+		return err
+	}
+	var sh shard
+	if err := json.Unmarshal(b, &sh); err != nil {
+		return err
+	}
+	c.mu.Lock()
+	defer c.mu.Unlock()
+	for _, o := range sh.Obls {
+		cur := c.obls[o.Key]
+		if cur == nil {
+			c.obls[o.Key] = o
+			continue
+		}
+		cur.Evals += o.Evals
+		cur.Fails += o.Fails
+		if cur.Witness == "" {
+			cur.Witness = o.Witness
+		}
+	}
+	c.evals += sh.Evals
+	for _, h := range sh.Distinct {
+		c.distinct[h] = struct{}{}
+	}
+	for _, smp := range sh.Samples {
+		if len(c.samples) < 40 {
+			c.samples = append(c.samples, smp)
+		}
+	}
+	for k, v := range sh.Extra {
+		if f, ok := v.(float64); ok {
+			if cur, ok := c.extra[k].(int64); ok {
+				c.extra[k] = cur + int64(f)
+			} else if c.extra[k] == nil {
+				c.extra[k] = int64(f)
+			}
+			continue
+		}
+		c.extra[k] = v
+	}
+	for _, cp := range sh.Caps {
+		dup := false
+		for _, x := range c.caps {
+			if x == cp {
+				dup = true
+			}
+		}
+		if !dup {
+			c.caps = append(c.caps, cp)
+			c.exhaustive = false
+		}
+	}
+	return nil
+}
+
+// RunShards re-executes this binary n times in parallel as workers (env VERIF_SHARD=i/n,
+// VERIF_SHARD_OUT=file) and merges their results. The body must call ShardOf() to select its share.
+func (c *Ctx) RunShards(n int) {
+	dir := os.Getenv("VERIF_WORK")
+	if dir == "" {
+		dir = os.TempDir()
+	}
+	type res struct {
+		i    int
+		out  []byte
+		err  error
+		path string
+	}
+	ch := make(chan res, n)
+	for i := 0; i < n; i++ {
+		go func(i int) {
+			path := filepath.Join(dir, fmt.Sprintf("shard-%s-%d-%d.json", c.ID, os.Getpid(), i))
+			cmd := exec.Command(os.Args[0], "--tier", c.Tier)
+			left := time.Until(c.deadline).Seconds()
+			cmd.Env = append(os.Environ(), fmt.Sprintf("VERIF_SHARD=%d/%d", i, n), "VERIF_SHARD_OUT="+path, fmt.Sprintf("VERIF_BUDGET_S=%d", int(left)))
+			out, err := cmd.CombinedOutput()
+			ch <- res{i, out, err, path}
+		}(i)
+	}
+	for k := 0; k < n; k++ {
+		r := <-ch
+		if r.err != nil {
+			fmt.Print(string(r.out))
+			c.Fatalf("worker %d/%d failed: %v", r.i, n, r.err)
+		}
+		if err := c.MergeShard(r.path); err != nil {
+			c.Fatalf("worker %d/%d: %v", r.i, n, err)
+		}
+		os.Remove(r.path)
+	}
+}
+
+// ShardOf reports (index, count) when running as a worker, (0,1) otherwise.
+func ShardOf() (int, int) {
+	var i, n int
+	if _, err := fmt.Sscanf(os.Getenv("VERIF_SHARD"), "%d/%d", &i, &n); err != nil || n <= 0 {
+		return 0, 1
+	}
+	return i, n
+}
+
+// IsWorker reports whether this process is a shard worker.
+func IsWorker() bool { return os.Getenv("VERIF_SHARD_OUT") != "" }
+
 // Main runs a check body and implements the command-line and output protocol.
 func Main(id, level string, body func(c *Ctx)) {
 	tier := flag.String("tier", os.Getenv("VERIF_TIER"), "quick|thorough")
@@ -367,6 +504,11 @@ func Main(id, level string, body func(c *Ctx)) {
 	}
 
 	body(c)
+
+	if out := os.Getenv("VERIF_SHARD_OUT"); out != "" {
+		c.writeShard(out)
+		os.Exit(0)
+	}
 
 	keys := make([]string, 0, len(c.obls))
 	for k := range c.obls {
